@@ -312,6 +312,22 @@ def r7(c):
             dv = q.agg_variant_of(b, u.args[1])
             if dv == (AUTH, 'Deny'):
                 okd = True
+        if not uo and len(cb) == 1:
+            # the same thing as an explicit match on the callback's optional answer: None -> Deny, Some(a) -> a.into()
+            oc_ = q.outcomes(b, cb[0])
+            exs_ = q.exits(b)
+            okn = False
+            for e_ in oc_.get('None', []):
+                rs_ = b.reach_set(e_)
+                xs_ = [x for x in exs_ if x['node'] in rs_]
+                okn = bool(xs_) and all(x['kind'] == 'agg' and x.get('adt') == AUTH and x['variant'] == 'Deny' for x in xs_)
+            oks = False
+            for e_ in oc_.get('Some', []):
+                rs_ = b.reach_set(e_)
+                xs_ = [x for x in exs_ if x['node'] in rs_ and not (x['kind'] == 'agg' and x['variant'] == 'Deny' and any(x['node'] in b.reach_set(n_) for n_ in oc_.get('None', [])))]
+                oks = bool(xs_) and all(x['kind'] == 'call' and x['cs'].declared in ('core::convert::Into::into', 'core::convert::From::from') and
+                                        q.sem(b, x['cs'].args[0]).kind == 'call' and q.sem(b, x['cs'].args[0]).cs is cb[0] for x in xs_)
+            okd = okn and oks
         c.ob('ffi/%s/default-deny' % meth, okd, 'a missing callback result becomes Authorization::Deny', 'unwrap_or sites: %d' % len(uo), loc_of(b))
         n += 1
     c.exact('ffi authorization callbacks', n, 8)
